@@ -320,6 +320,11 @@ class _ECKey(SSHKey):
         s = packet.get_mpint()
         packet.check_end()
 
+        # Accept only the canonical (minimal length, positive) encoding
+        # of r and s, so no other byte string verifies as this signature
+        if r <= 0 or s <= 0 or sig != MPInt(r) + MPInt(s):
+            return False
+
         return self._key.verify(data, der_encode((r, s)), self._hash_alg)
 
 
